@@ -14,6 +14,7 @@ THEOREMS = [NS + t for t in (
     "c13_all_options",
 )]
 LEVEL = "proof"
+THOROUGH_SEEDS = 1          # the thorough tier of this check is already long: one further seed
 MANIFEST = dict(
     engine="S: lean/ZeepModel/Settings.lean",
     technique="Lean 4 refinement proof (overlay+saved dicts refine a per-thread frame stack, induction over arbitrary interleaved histories) + exhaustive differential tie to zeep.settings on real threads",
